@@ -440,6 +440,8 @@ def run(ctx):
         check_writeback(ctx, res)
     with res.guard("check_complementctx, res"):
         check_complement(ctx, res)
+    with res.guard("check_complement_none(ctx, res)"):
+        check_complement_none(ctx, res)
     with res.guard("check_directed_swapctx, res"):
         check_directed_swap(ctx, res)
     with res.guard("G-REUSE"):
@@ -456,3 +458,48 @@ def run(ctx):
 
         check_pack(ctx, res, "C13")
     return res
+
+
+def check_complement_none(ctx, res: Result):
+    """The hyperedges outside the selection are picked by comparing `len(e)` with the requested size.  When the size that
+    is compared can be None where the comparison runs (the caller gave `order`, and the conversion `size = order + 1` is
+    missing on that path), `len(e) != None` holds for every hyperedge: the selected ones are re-added next to their
+    reshuffled versions.  Decided from the flow-sensitive kind of the compared value, in configuration_model itself and in
+    the repo helpers it hands the value to."""
+    from ..kinds import Union, only_none
+
+    def can_be_none(k):
+        return only_none(k) or (isinstance(k, Union) and any(only_none(m) for m in k.members))
+
+    fi = ctx.require("configuration_model.configuration_model")
+    f = fi.short
+
+    def len_compares(node, names):
+        out = []
+        for c in ast.walk(node):
+            if isinstance(c, ast.Compare) and len(c.ops) == 1 and isinstance(c.ops[0], (ast.Eq, ast.NotEq)):
+                l, r = c.left, c.comparators[0]
+                for a, b in ((l, r), (r, l)):
+                    if isinstance(a, ast.Call) and isinstance(a.func, ast.Name) and a.func.id == "len" and isinstance(b, ast.Name) and b.id in names:
+                        out.append((c, b))
+        return out
+
+    n = 0
+    # in configuration_model itself
+    for c, b in len_compares(fi.node, {"size", "order"}):
+        k = ctx.interp.kind_at(fi, b)
+        n += 1
+        res.check(not can_be_none(k), "M-COMPLEMENT", f, norm(c), "size-known", f"`{b.id}` can be None where `{norm(c)}` runs (the caller gave the other of order / size and no conversion dominates): the comparison is then constantly true / false and the complement is every hyperedge or none", loc(fi, c))
+    # in helpers that are handed the value
+    for cf in ctx.interp.callfacts:
+        if cf.caller.qualname != fi.qualname or cf.callee.module is not fi.module:
+            continue
+        params = {a.arg for a in cf.callee.params}
+        guarded = {x.left.id for x in ast.walk(cf.callee.node) if isinstance(x, ast.Compare) and isinstance(x.left, ast.Name) and any(isinstance(o, (ast.Is, ast.IsNot)) for o in x.ops)}
+        for c, b in len_compares(cf.callee.node, params - guarded):
+            if b.id not in cf.bound:
+                continue
+            n += 1
+            res.check(not can_be_none(cf.bound[b.id]), "M-COMPLEMENT", f, norm(cf.node)[:80], "size-known", f"`{cf.callee.short}` compares `{norm(c)}`, and the `{b.id}` it is handed here can be None (the caller gave `order`; no `size = order + 1` dominates the call): `{norm(c)}` then holds for every hyperedge and the selected ones are re-added next to their reshuffled versions", loc(fi, cf.node))
+    if n == 0:
+        res.unknown("M-COMPLEMENT", f, "len(e) != size", "size-known", "no comparison of a hyperedge length with the requested size found in configuration_model or the helpers it hands the size to", loc(fi, fi.node))
